@@ -144,7 +144,7 @@ Definition check_small (c : scase) : outcome :=
                          | _ => ur_err (upload_of (sc_request c))
                          end) (si_upfail_hit c);
      o_prop := spec_small c;
-     o_trig := if trigger_append_dir (sc_fsreq c) (sc_state c) then Some 0 else None;
+     o_trig := None;     (* no known finding left (former finding 0, append onto a directory, is repaired) *)
      o_nontrivial := status_eqb (si_status c) Created && negb (is_nil (sc_body c)) |}.
 
 (* ================= Big cases ================= *)
@@ -163,10 +163,12 @@ Record bcase := {
   bc_md5tab : list (N * N);       (* (n, tag of md5(body[:n])) for the cut points *)
   bc_parent_file : bool;          (* the parent directory of the path is a regular file (and the path is missing) *)
   bc_pre : option sentry;
+  bc_pre_dir : bool;              (* bc_pre is a DIRECTORY entry (only generated without a file name: no redirection) *)
   bi_status : status;
   bi_code : N;                    (* the HTTP status code written by filerHandler/autoChunk *)
   bi_upfail_hit : bool;
-  bi_post : option sentry }.
+  bi_post : option sentry;
+  bi_post_dir : bool }.
 
 Definition pair_eqb (a b : N * N) : bool := (fst a =? fst b) && (snd a =? snd b).
 Definition triple_eqb (a b : N * N * N) : bool :=
@@ -203,6 +205,8 @@ Definition big_expected (b : bcase) : status * option sentry * bool :=
     else
       match (if bc_append b then bc_pre b else None) with
       | Some e =>
+          if bc_pre_dir b then (Failed, bc_pre b, false)         (* saveMetaData: "... is a directory" *)
+          else
           match s_inline e with
           | Some _ => (Failed, bc_pre b, false)
           | None =>
@@ -216,6 +220,7 @@ Definition big_expected (b : bcase) : status * option sentry * bool :=
           end
       | None =>
           if bc_parent_file b then (Failed, bc_pre b, false)     (* CreateEntry: "... is a file" *)
+          else if bc_pre_dir b then (Failed, bc_pre b, false)    (* CreateEntry: "existing ... is a directory" *)
           else
           (Created,
            Some {| s_size := pl_off p;
@@ -228,7 +233,8 @@ Definition big_expected (b : bcase) : status * option sentry * bool :=
   end.
 
 (* the status code autoChunk answers with: 400 bad maxMB; 500 not multipart / upload
-   failure / append to inline content; 499 "read input: ..."; 409 "... is a file"; 201 *)
+   failure / append to inline content / append onto a directory ("... is a directory") /
+   file over a directory; 499 "read input: ..."; 409 "... is a file"; 201 *)
 Definition big_code (b : bcase) : N :=
   match auto_chunk_size (bc_maxmb_q b) (bc_maxmb_opt b), bc_method b with
   | None, _ => 400
@@ -238,8 +244,9 @@ Definition big_code (b : bcase) : N :=
                          (bc_len b) (bc_end b) (bc_upfail b) in
     if pl_err p then 500 else if pl_rerr p then 499
     else match (if bc_append b then bc_pre b else None) with
-         | Some e => match s_inline e with Some _ => 500 | None => 201 end
-         | None => if bc_parent_file b then 409 else 201
+         | Some e => if bc_pre_dir b then 500
+                     else match s_inline e with Some _ => 500 | None => 201 end
+         | None => if bc_parent_file b then 409 else if bc_pre_dir b then 500 else 201
          end
   end.
 
@@ -263,9 +270,9 @@ Definition spec_big (b : bcase) : bool :=
   let must_fail := is_err (bc_end b) || bi_upfail_hit b in
   match bi_status b with
   | Other => false
-  | Failed => opt_eqb sentry_eqb (bi_post b) (bc_pre b)
+  | Failed => opt_eqb sentry_eqb (bi_post b) (bc_pre b) && Bool.eqb (bi_post_dir b) (bc_pre_dir b)
   | Created =>
-      negb must_fail &&
+      negb must_fail && negb (bi_post_dir b) && negb (bc_append b && bc_pre_dir b) &&
       match bi_post b with
       | None => false
       | Some e =>
@@ -292,6 +299,7 @@ Definition spec_big (b : bcase) : bool :=
 Definition check_big (b : bcase) : outcome :=
   let '(st, post, uerr) := big_expected b in
   {| o_corr := status_eqb st (bi_status b) && opt_eqb sentry_eqb post (bi_post b) &&
+               Bool.eqb (bi_post_dir b) (match st with Created => false | _ => bc_pre_dir b end) &&
                Bool.eqb uerr (bi_upfail_hit b) && (big_code b =? bi_code b);
      o_prop := spec_big b;
      o_trig := None;
